@@ -3,8 +3,13 @@
 // registration of a component type.  Meant to be run under ThreadSanitizer (variant "tsan"): the check reads
 // the sanitizer's report; the program itself prints per-run totals read back after run() returned.
 //
-// usage: parjob_driver <workers> <entities> <rounds> <seed> [inject-per-mille]
+// usage: parjob_driver <workers> <entities> <rounds> <seed> [inject-per-mille] [mode] [storage-chunk-capacity]
+// mode bits: 1 deferred assign, 2 first-use registration inside tasks, 4 additionally a run-time described job
+// (NonTemplateJob, what the C API is built on) in parallel mode over two archetypes that keep the requested
+// component at DIFFERENT component indexes ({Bystander, Payload} and {Payload}); a small storage-chunk capacity
+// makes every task walk several arrays.
 #include <mustache/ecs/ecs.hpp>
+#include <mustache/ecs/non_template_job.hpp>
 #include <mustache/utils/dispatch.hpp>
 
 #include <atomic>
@@ -17,7 +22,11 @@
 
 using namespace mustache;
 
+namespace mustache { namespace verif { extern uint32_t storage_chunk_capacity; } }
+
 namespace {
+struct Bystander { uint64_t value = 1000u; };   // registered before Payload: lower id, index 0 next to it
+struct Payload { uint64_t value = 0u; };
 struct Pos { uint64_t v = 0; };
 struct Vel { uint64_t v = 1; };
 struct Tag { uint32_t t = 0; };
@@ -47,6 +56,8 @@ int main(int argc, char** argv) {
     g_seed = argc > 4 ? static_cast<uint64_t>(std::atoll(argv[4])) : 1u;
     g_inject = argc > 5 ? static_cast<uint32_t>(std::atoi(argv[5])) : 0u;
     const int mode = argc > 6 ? std::atoi(argv[6]) : 3; // bit 0: deferred assign/destroy, bit 1: first-use registration
+    const uint32_t cap = argc > 7 ? static_cast<uint32_t>(std::atoi(argv[7])) : 0u;
+    mustache::verif::storage_chunk_capacity = cap;
     mustache::verif::sched_hook = &hook;
 
     WorldContext ctx;
@@ -61,6 +72,18 @@ int main(int argc, char** argv) {
     }
     uint64_t expect_sum = 0;
     for (uint32_t i = 0; i < entities; ++i) expect_sum += i;
+
+    // run-time described job over two layouts of the same component
+    std::vector<Entity> with_both, with_single;
+    ComponentId payload_id;
+    if ((mode & 4) != 0) {
+        (void) ComponentFactory::instance().registerComponent<Bystander>();
+        payload_id = ComponentFactory::instance().registerComponent<Payload>();
+        auto& arch_both = em.getArchetype<Bystander, Payload>();
+        auto& arch_single = em.getArchetype<Payload>();
+        for (uint32_t i = 0; i < entities; ++i) with_both.push_back(em.create(arch_both));
+        for (uint32_t i = 0; i < entities; ++i) with_single.push_back(em.create(arch_single));
+    }
 
     for (uint32_t round = 0; round < rounds; ++round) {
         std::atomic<uint64_t> visits{0};
@@ -88,9 +111,32 @@ int main(int argc, char** argv) {
         }
         uint32_t tids = 0;
         for (auto& c : seen_tid) if (c.load() > 0) ++tids;
-        std::printf("round %u visits=%llu alive=%u sum_ok=%d threads_used=%u\n", round,
+        int ntj_ok = 1;
+        unsigned long long ntj_tasks = 0;
+        if ((mode & 4) != 0) {
+            std::atomic<uint64_t> task_mask{0};
+            NonTemplateJob job;
+            job.component_requests.push_back(NonTemplateJob::ComponentRequest{payload_id, false, true});
+            job.callback = [&](NonTemplateJob::ForEachArrayArgs args) {
+                task_mask.fetch_or(1ull << (args.invocation_index.task_index.toInt() % 64u));
+                auto payload = static_cast<Payload*>(args.components[0]);
+                for (uint32_t i = 0; i < args.count.toInt(); ++i) {
+                    ++payload[i].value;        // plain write to the array the task was handed
+                }
+            };
+            job.run(world, JobRunMode::kParallel);
+            for (uint64_t m = task_mask.load(); m != 0; m &= m - 1) ++ntj_tasks;
+            for (Entity e : with_both) {
+                if (em.getComponent<const Payload>(e)->value != round + 1u) ntj_ok = 0;
+                if (em.getComponent<const Bystander>(e)->value != 1000u) ntj_ok = 0;
+            }
+            for (Entity e : with_single) {
+                if (em.getComponent<const Payload>(e)->value != round + 1u) ntj_ok = 0;
+            }
+        }
+        std::printf("round %u visits=%llu alive=%u sum_ok=%d threads_used=%u ntj_ok=%d ntj_tasks=%llu\n", round,
                     static_cast<unsigned long long>(visits.load()), alive,
-                    sum == expect_sum + static_cast<uint64_t>(alive) * (round + 1u) ? 1 : 0, tids);
+                    sum == expect_sum + static_cast<uint64_t>(alive) * (round + 1u) ? 1 : 0, tids, ntj_ok, ntj_tasks);
         std::fflush(stdout);
     }
     return 0;
